@@ -245,6 +245,11 @@ def shrink(plan):
             ninj["culprit"] = [cu, ncl]
             new["only"] = ninj
             yield new
+    from zcsim import xmlshrink
+    for xml in xmlshrink.candidates(plan["schema_xml"]):
+        new = dict(plan)
+        new["schema_xml"] = xml
+        yield new
 
 
 def sample(plan):
